@@ -4,6 +4,7 @@
 -/
 import Rbgp.Rib.Codec
 import Rbgp.Rib.ProofsC02
+import Rbgp.Rib.ProofsC15
 namespace Rbgp.Rib
 open Rbgp.Rib.Codec
 
@@ -81,7 +82,7 @@ theorem oneFamPerSrc_sound (ops : List Op) (seen : List (Nat × Fam)) (h : oneFa
 /-- **Every case accepted by `goodB` (hence by `caseOf?`) satisfies `Case.Good`.** -/
 theorem goodB_sound {c : Case} (h : goodB c = true) : ∃ g, c.Good g := by
   simp only [goodB, Bool.and_eq_true, List.all_eq_true] at h
-  obtain ⟨href, hfam⟩ := h
+  obtain ⟨⟨href, hfam⟩, _⟩ := h
   obtain ⟨g, _, hg⟩ := oneFamPerSrc_sound c.ops [] hfam
   refine ⟨g, ⟨?_, ?_⟩⟩
   · intro op hop
@@ -102,6 +103,41 @@ theorem goodB_sound {c : Case} (h : goodB c = true) : ∃ g, c.Good g := by
       exact hr.1.2
     | _ => trivial
 
+/-- what the codec demands of a purge that is handed a counter -/
+theorem goodB_purgeCtrOk {c : Case} (h : goodB c = true) : c.PurgeCtrOk := by
+  simp only [goodB, Bool.and_eq_true, List.all_eq_true] at h
+  obtain ⟨⟨href, _⟩, _⟩ := h
+  intro op hop
+  have hr := href op hop
+  have key : ∀ a i, purgeCtrB c a i = true → PurgeArgOk c a (some i) := by
+    intro a i hh j hj
+    simp only [Option.some.injEq] at hj; subst hj
+    unfold purgeCtrB at hh
+    cases hs : c.srcs[i]? with
+    | none => rw [hs] at hh; simp at hh
+    | some src =>
+      rw [hs] at hh
+      simp only [Bool.and_eq_true, beq_iff_eq, List.all_eq_true, Bool.or_eq_true, bne_iff_ne, ne_eq] at hh
+      refine ⟨src, rfl, hh.1, ?_⟩
+      intro s' hs' ha
+      rcases hh.2 s' hs' with h1 | h1
+      · exact h1
+      · exact absurd ha h1
+  cases op with
+  | dropStale a f ctr =>
+    cases ctr with
+    | none => intro i hi; simp at hi
+    | some i => exact key a i (by simpa [opRefB] using hr)
+  | dropLlgr a f ctr =>
+    cases ctr with
+    | none => intro i hi; simp at hi
+    | some i => exact key a i (by simpa [opRefB] using hr)
+  | dropNoLlgr a f ctr =>
+    cases ctr with
+    | none => intro i hi; simp at hi
+    | some i => exact key a i (by simpa [opRefB] using hr)
+  | _ => trivial
+
 theorem caseOf?_good {t : Term} {c : Case} (h : caseOf? t = some c) : ∃ g, c.Good g := by
   unfold caseOf? at h
   split at h
@@ -112,6 +148,19 @@ theorem caseOf?_good {t : Term} {c : Case} (h : caseOf? t = some c) : ∃ g, c.G
     subst hc
     by_cases hg : goodB { srcs := srcs, attrs := attrs, ops := ops } = true
     · exact goodB_sound hg
+    · simp [guardO, hg] at hu
+  · simp at h
+
+theorem caseOf?_purgeCtrOk {t : Term} {c : Case} (h : caseOf? t = some c) : c.PurgeCtrOk := by
+  unfold caseOf? at h
+  split at h
+  · rename_i ss as os
+    simp only [bind, Option.bind_eq_some_iff] at h
+    obtain ⟨srcs, _, attrs, _, ops, _, u, hu, hc⟩ := h
+    simp only [pure, Option.some.injEq] at hc
+    subst hc
+    by_cases hg : goodB { srcs := srcs, attrs := attrs, ops := ops } = true
+    · exact goodB_purgeCtrOk hg
     · simp [guardO, hg] at hu
   · simp at h
 
